@@ -1,12 +1,25 @@
-"""C18  Queries, sorts and enumeration never modify an index or their inputs."""
+"""C18  Queries, sorts and enumeration never modify an index or their inputs.
+
+`read prov <kind>`: the object-level read model (`HypatiaModel/ConcurrencyReads.lean`) predicts whether the
+container a read hands back is one the index stores (two calls return the very same object) or one allocated by
+the call.  Sanity check by mutation of this tie (scratch copies):
+  T5  `BaseIndexMixin.docids` tests `len(indexed) == 0` first (hands back the stored, empty not-indexed set of an
+      empty index)                                                                                caught
+  T6  `KeywordIndex.search` returns `IF.Set(rs)` instead of the stored posting                   caught
+"""
 import importlib
 
 from lib import qtree
 from lib.core import exc_name, idset
 
 ID = "C18"
-AUDIT_IMPORTS = ["HypatiaProofs.Properties.C18"]
-THEOREMS = ["Hyp.Alias." + t for t in ("c18_okapi_apply_target_fresh", "c18_cosine_apply_target", "c18_scan_forward_target_fresh", "c18_docids_may_be_stored", "c18_negate_may_be_stored", "c18_docids_fresh_otherwise", "c18_query_union_aliases")]
+AUDIT_IMPORTS = ["HypatiaProofs.Properties.C18", "HypatiaProofs.Properties.C18Index"]
+THEOREMS = ["Hyp.Alias." + t for t in ("c18_okapi_apply_target_fresh", "c18_cosine_apply_target", "c18_scan_forward_target_fresh", "c18_docids_may_be_stored", "c18_negate_may_be_stored", "c18_docids_fresh_otherwise", "c18_query_union_aliases")] + \
+    ["Hyp.CIdx." + t for t in (      # reads on the object-level heaps (Properties/C18Index.lean)
+        "c18_field_reads_write_fresh", "c18_field_read_state_unchanged", "c18_docids_prov", "c18_scan_prov",
+        "c18_scan_forward_prov", "c18_keyword_reads_write_fresh", "c18_keyword_search_one_prov",
+        "c18_text_reads_write_fresh", "c18_text_read_state_unchanged", "c18_okapi_apply_prov",
+        "c18_cosine_apply_prov", "c18_cosine_idf_one_writes_stored")]
 CASES = {"quick": 400, "thorough": 60000}
 BUDGET_S = {"quick": 50, "thorough": 780}
 BATCH = 10
@@ -20,13 +33,25 @@ RULE = ("sessions on a catalog with field, keyword, facet, Okapi-text and cosine
         "Every read is executed twice; before and after, the complete observable state of every index, both "
         "lexicons' vocabularies, the caller's collection and a structural+identity snapshot of the query object "
         "are compared. non-trivial = at least 8 distinct reads on a non-empty catalog")
-LEVEL_TEXT = ("Lean 4: reads are functions State -> Args -> Result in every model (purity by type); proved beyond "
-              "that is the provenance discipline - every in-place write on a read path (TextIndex.apply "
-              "rescaling, scan_forward removal, N-best merging) targets a freshly allocated container, for Okapi "
-              "unconditionally and for cosine because idf is never 1. The correspondence run checks the real "
-              "objects: state, inputs and query objects before/after every read, and repeatability")
-LEVEL_NOTE = ("partial: purity of the model is by construction; the proved part is the provenance table, whose "
-              "entries are read off the code and validated by the runs (object identity and state snapshots)")
+LEVEL_TEXT = ("Lean 4: (1) reads are functions State -> Args -> Result in every pure model (purity by type); (2) the "
+              "provenance table - every in-place write on a read path (TextIndex.apply rescaling, scan_forward "
+              "removal, N-best merging) targets a freshly allocated container, for Okapi unconditionally and for "
+              "cosine because idf is never 1; (3) the read paths on the object-level heaps of persistent objects "
+              "that C19 and C09 use (posting lookup, multiunion scans, not_indexed, docids, _negate, scan_forward "
+              "with its copy, KeywordIndex.search, Okapi/cosine _search_wids, _trivial, the rescaling loop), "
+              "with read and write logs: for every state and argument each read writes only to objects it "
+              "allocated during the call, so the index state (resolved view; every stored object) is unchanged "
+              "and no stored object is registered with the transaction (c18_*_reads_write_fresh, "
+              "c18_*_read_state_unchanged); the provenance table's entries are what these reads return "
+              "(c18_docids_prov, c18_scan_forward_prov, c18_keyword_search_one_prov, c18_okapi_apply_prov, "
+              "c18_cosine_apply_prov), the cosine idf = 1 case being a real write to a stored IFBTree at this "
+              "level (witness). The correspondence run checks the real objects: state, inputs and query objects "
+              "before/after every read, repeatability, and - for docids / not_indexed / applyEq / ranges / "
+              "keyword search / one-word text apply - that the object-level model predicts whether two calls "
+              "return the very same container")
+LEVEL_NOTE = ("partial: purity of the pure models is by construction; the object-level read models and the "
+              "provenance table are hand-written from the code and tied to it by the runs (state snapshots, "
+              "object identity of returned containers)")
 TECHNIQUE = "Lean 4 provenance model (fresh vs stored containers) + before/after differential observation of the real objects"
 
 c09 = importlib.import_module("props.c09")
@@ -42,7 +67,13 @@ def gen(rng, tier, idx):
     shared = rng.random() < 0.5
     seeds = [rng.randrange(60) for _ in range(2)]
 
+    # some sessions have documents but no value for the field / keyword / facet index: `docids()` then
+    # hands back the stored not-indexed set itself
+    allmissing = rng.random() < 0.08
+
     def docspec():
+        if allmissing:
+            return ["-", "-", "-", rng.choice(seeds), "-" if rng.random() < 0.5 else rng.choice(seeds)]
         if shared:
             return [rng.randrange(3), rng.choice([1, 3, 3, 7, 2]), rng.choice([0, 1, 8]), rng.choice(seeds),
                     rng.choice(seeds)]
@@ -90,9 +121,13 @@ def gen_read(rng, ids):
         return ["read", "tsort", rng.randrange(len(TEXT_QUERIES)), rng.randrange(2), rng.choice([0, 1, 3])]
     if r < 0.72:
         return ["read", "counts", rng.randrange(4)] + sub()
-    if r < 0.8:
+    if r < 0.77:
         return ["read", "enum", rng.choice(["docids", "indexed", "not_indexed", "counts", "unique_values", "repr",
                                             "lexicon"])]
+    if r < 0.8:
+        # provenance of the container a read hands back (stored = two calls return the very same object),
+        # compared with the object-level model's answer
+        return ["read", "prov", rng.choice(PROV_KINDS), rng.randrange(40)]
     if r < 0.9:
         # boolean tree over the catalog's five indexes (kinds as in lib.qtree)
         t = qtree.gen_tree(rng, ["field", "keyword", "facet", "text", "text"], rng.randrange(1, 4))
@@ -103,8 +138,15 @@ def gen_read(rng, ids):
             rng.randrange(5)]
 
 
+PROV_KINDS = ["fdocids", "fni", "feq", "frange", "kdocids", "kni", "keq", "kany", "cdocids", "cni", "tapply", "uapply"]
+
+
 def model_cmd(c):
-    return ["read"] if c[0] == "read" else ["op"]
+    """ordinary reads are acknowledged by the (pure) model; operations and provenance reads go to the
+    object-level model in full"""
+    if c[0] == "read":
+        return c if c[1] == "prov" else ["read"]
+    return c
 
 
 class Sess(object):
@@ -142,6 +184,20 @@ class Sess(object):
                 return idset(list(x))
             except TypeError:
                 return repr(x)
+        if kind == "prov":
+            what, a = c[2], c[3]
+            fn = {"fdocids": self.f.docids, "fni": self.f.not_indexed,
+                  "feq": lambda: self.f.applyEq(a % 8),
+                  "frange": lambda: self.f.applyInRange(a % 4, a % 4 + 3),
+                  "kdocids": self.k.docids, "kni": self.k.not_indexed,
+                  "keq": lambda: self.k.applyEq(c09.KWS[a % 5]),
+                  "kany": lambda: self.k.applyAny([c09.KWS[a % 5], c09.KWS[(a + 1) % 5]]),
+                  "cdocids": self.c.docids, "cni": self.c.not_indexed,
+                  "tapply": lambda: self.t.apply(c09.WORDS[a % 10]),
+                  "uapply": lambda: self.u.apply(c09.WORDS[a % 10])}[what]
+            r1 = fn()
+            r2 = fn()
+            return "prov " + ("stored" if r1 is r2 else "fresh"), inputs
         if kind in ("fapply", "fexec0", "fexec1"):
             op = c[2]
             if op in ("any", "notany"):
@@ -363,6 +419,9 @@ def impl_run(hyp, case):
                     problems.append("input-unreadable:" + n)
         if results[0] != results[1]:
             problems.append("not-repeatable")
+        if c[1] == "prov" and not problems:
+            out.append(results[0])
+            continue
         out.append("unchanged" if not problems else "CHANGED " + ",".join(sorted(set(problems))))
     return out
 
@@ -376,7 +435,9 @@ def features(case, outs):
     f = []
     for c, o in zip(case["cmds"], outs):
         if c[0] == "read":
-            f.append("read:" + str(c[1]) + (":" + str(c[2]) if c[1] in ("sort", "enum", "rs") else ""))
-            if o != "unchanged":
+            f.append("read:" + str(c[1]) + (":" + str(c[2]) if c[1] in ("sort", "enum", "rs", "prov") else ""))
+            if c[1] == "prov":
+                f.append("prov:%s %s" % (c[2], o))
+            elif o != "unchanged":
                 f.append(o)
     return f
